@@ -18,6 +18,19 @@ TAGS = {'roCreate': 'RunningOrder', 'roStorySend': 'StorySend', 'roStoryAppend':
         'roMetadataReplace': 'MetaDataReplace', 'roReadyToAir': 'ReadyToAir', 'roDelete': 'RunningOrderEnd'}
 
 
+_FILE = None
+
+
+def _file_path():
+    global _FILE
+    if _FILE is None or not os.path.isdir(os.path.dirname(_FILE)):
+        import atexit, shutil
+        d = tempfile.mkdtemp(prefix='mrm-c08-file-')
+        atexit.register(shutil.rmtree, d, True)
+        _FILE = os.path.join(d, 'incoming.mos.xml')
+    return _FILE
+
+
 def classify_impl(source, how='string', filt='ignore'):
     """Classify with the real code under a warning filter; -> {'kind'} | {'err'}"""
     from . import impl
@@ -28,10 +41,12 @@ def classify_impl(source, how='string', filt='ignore'):
         with warnings.catch_warnings():
             warnings.simplefilter(filt)
             if how == 'file':
-                fd, tmp = tempfile.mkstemp(suffix='.mos.xml')
-                with os.fdopen(fd, 'wb') as f:
+                # always the same path, rewritten, modification time preserved: what is classified is what the file holds now
+                path = _file_path()
+                with open(path, 'wb') as f:
                     f.write(source if isinstance(source, bytes) else source.encode('utf-8'))
-                mo = MosFile.from_file(tmp)
+                os.utime(path, (1000000000, 1000000000))
+                mo = MosFile.from_file(path)
             else:
                 mo = MosFile.from_string(source)
         return {'kind': type(mo).__name__}
@@ -297,6 +312,42 @@ def run_c08(tier, seed):
                                    'spec': 'the class depends on the document alone, not on what was classified before', 'expected': spec, 'impl': got,
                                    'preceding': order[max(0, order.index(text) - 3):order.index(text)]})
     oc.count('reclassified-shuffled', 2 * len(order))
+    # documents of equal byte length but different classes, one after the other through the same file path
+    same_len = ['<mos><%s><roID>r</roID></%s></mos>' % (t, t) for t in ('roStoryDelete', 'roStoryAppend', 'roStoryInsert', 'roStoryDelete', 'roStorySendXX'[:11] + 'XX')]
+    same_len += ['<mos><%s><roID>r</roID></%s></mos>' % (t, t) for t in ('roItemDelete', 'roItemInsert', 'roReadyToAir', 'roItemDelete')]
+    for t in same_len:
+        exp = classify_impl(t, 'string', 'ignore')
+        got = classify_impl(t, 'file', 'ignore')
+        oc.evaluations += 1
+        oc.in_domain += 1
+        oc.count('same-length-sequence')
+        if got != exp:
+            oc.failing.append({'kind': 'classify', 'text': t, 'label': 'equal-length documents through one file path', 'preceding_files': same_len,
+                               'spec': 'same class from a file as from a string, whatever the file held before', 'expected': exp, 'impl': {'file': got}})
+    # ElementAction.from_file / from_string (the typed entry point of roElementAction) classify like MosFile's
+    from mosromgr.mostypes import ElementAction
+    for lbl, d in list(ea_cases())[::7]:
+        t = TJ.to_text(d)
+        exp = classify_impl(t, 'string', 'ignore')
+        got = {}
+        path = _file_path()
+        with open(path, 'wb') as f:
+            f.write(t.encode('utf-8'))
+        for name, mk in (('ElementAction.from_string', lambda: ElementAction.from_string(t)), ('ElementAction.from_string(bytes)', lambda: ElementAction.from_string(t.encode())),
+                         ('ElementAction.from_file', lambda: ElementAction.from_file(path))):
+            try:
+                with warnings.catch_warnings():
+                    warnings.simplefilter('error')
+                    got[name] = {'kind': type(mk()).__name__}
+            except Exception as e:  # noqa: BLE001
+                from . import impl as _impl
+                got[name] = {'err': _impl.err_name(e)}
+        oc.evaluations += 1
+        oc.in_domain += 1
+        oc.count('typed-entry-point')
+        if any(v != exp for v in got.values()):
+            oc.failing.append({'kind': 'classify', 'text': t, 'label': 'ElementAction typed entry points: ' + lbl, 'typed_ea': True,
+                               'spec': 'ElementAction.from_file / from_string classify a roElementAction like MosFile.from_*', 'expected': exp, 'impl': got})
     # a fresh interpreter started with -W error and no byte-code cache: compiling and importing the library must not
     # warn (a SyntaxWarning / DeprecationWarning at import would make every classification fail there)
     fresh_interpreter_check(oc, [t for t in texts[::max(1, len(texts) // 40)]])
